@@ -26,6 +26,7 @@ def configs(tier):
         for d in ((1,) if kind == "ode" else (2, 1)):
             out.append(dict(kind=kind, K=K, d=d, x64=True))
     out.append(dict(kind="nonstatio", K=K, d=1, time_first=True, x64=True))     # the time store fills before the space store
+    out.append(dict(kind="ode", K=K, d=1, resume=3, x64=True))                  # solve called again with the returned generator after 3 iterations
     return out
 
 
@@ -70,10 +71,11 @@ def build(kind, start, every, d=1, ncomp=1, time_first=False):
             def equation(self, t, x, u, p): return psi(0)(u(t, x, p)[0] + 0.5 * t[0] + 0.25 * x[0])
         params = Params(nn_params=u.init_params(), eq_params={"kappa": jnp.array(1.3)})
         loss = LossPDENonStatio(u=u, dynamic_loss=Eq(Tmax=1), params=params)
-        n_, n0_, nt_, nt0_ = (10, 4, 7, 3) if time_first else (8, 4, 9, 3)
+        n_, n0_, nt_, nt0_ = (13, 4, 7, 3) if time_first else (10, 4, 9, 3)
+        rp = dict(rp, selected_sample_size_omega=3)
         data = DG.CubicMeshPDENonStatio(key=key, n=n_, nb=None, nt=nt_, omega_batch_size=2, omega_border_batch_size=None, temporal_batch_size=2, dim=d,
                                         min_pts=(0.0,) * d, max_pts=(1.0,) * d, tmin=0.0, tmax=1.0, rar_parameters=rp, n_start=n0_, nt_start=nt0_)
-        sizes = dict(times=(nt_, nt0_, 2), omega=(n_, n0_, 2))
+        sizes = dict(times=(nt_, nt0_, 2), omega=(n_, n0_, 3))
     return data, loss, params, sizes
 
 
@@ -88,23 +90,41 @@ def run(cfg, R):
     from jinns.solver._rar import init_rar, trigger_rar
     kind, K, d = cfg["kind"], cfg["K"], cfg.get("d", 1)
     tf = cfg.get("time_first", False)
+    resume = cfg.get("resume", 0)
+    Kfull = K; K = K - resume
     build(kind, 1, 2, d)          # creates the (concrete) PRNG key outside the traced function
     start0, every0 = jnp.array(1), jnp.array(2)
     R.note(functions=["jinns.solver._rar.init_rar", "trigger_rar", "_proceed_to_rar", "rar_step_true", "rar_step_false", "jinns.data._DataGenerators._check_and_set_rar_parameters"],
            stubs_=["jax.random contracts", "argsort/top_k -> sorted-permutation contract"],
            assumptions=["start_iter >= 0", "update_every >= 1"])
 
+    pre = None
+    if resume:
+        # first leg, run for real (concrete schedule start=0, every=3): its returned generator is what a user passes back to solve()
+        from .. import stubs as _st
+        data1, loss1, params1, _ = build(kind, 0, 3, d, time_first=tf)
+        with _st.stubbed():
+            data1, t1, f1 = init_rar(data1)
+            for i in range(resume):
+                loss1, params1, data1 = trigger_rar(i, loss1, params1, data1, t1, f1)
+        pre = (data1, loss1, params1)
+
     def f(start, every):
-        data, loss, params, _ = build(kind, start, every, d, time_first=tf)
-        data, t_, f_ = init_rar(data)
+        if resume:
+            data, loss, params = pre
+            rp2 = dict(data.rar_parameters); rp2["start_iter"] = start; rp2["update_every"] = every
+            data = eqx.tree_at(lambda m: m.rar_parameters, data, rp2)
+        else:
+            data, loss, params, _ = build(kind, start, every, d, time_first=tf)
+        data, t_, f_ = init_rar(data)                     # what every jinns.solve call does first
         outs = [snapshot(kind, data)]
-        for i in range(K):
+        for i in range(K):                                # (K already excludes the first leg of a resumed run)
             loss, params, data = trigger_rar(i, loss, params, data, t_, f_)
             outs.append(snapshot(kind, data))
         return outs
 
     _, _, _, sizes = build(kind, 1, 2, d, time_first=tf)
-    name = f"{kind}/d{d}/K{K}" + ("/time-first" if tf else "")
+    name = f"{kind}/d{d}/K{Kfull}" + ("/time-first" if tf else "") + (f"/resumed-after-{resume}" if resume else "")
     tr = R.trace(name, f, (start0, every0), key=f"{kind}:d={d}:raises", use_stubs=True)
     if tr is None: return
     start, every = tr.A[0][()], tr.A[1][()]
@@ -144,7 +164,7 @@ def run(cfg, R):
         nb = [(o["nb"][()] if isinstance(o["nb"], np.ndarray) else const(int(o["nb"]), "Int")) for o in O]
         if not all(x.is_const for x in nb):
             return [("refinement counter is concrete along a path", tm.FALSE)]
-        J = 0
+        J = int(nb[0].val)                      # steps already taken before the asserted leg (resumed runs)
         for i in range(K):
             stepped = int(nb[i + 1].val) - int(nb[i].val)
             G.append((f"iteration {i}: at most one refinement step", const(stepped in (0, 1), "Bool")))
